@@ -109,6 +109,12 @@ func dialogueDevice(ds ...*Desc) *simDev {
 			r.Out = toks(e.Out, d.NL)
 			sd.pendingHold = e.Hold
 			if o.FinishAt == st.ev {
+				if o.FinishBoth {
+					// completion text, text matching the expected response and the prompt: one segment
+					r.Out = append(r.Out, devsim.E(o.finishText(st.ev)+d.Prompt))
+					r.NoPrompt = true
+					return r
+				}
 				if o.Complete == "text" {
 					r.Out = append(r.Out, devsim.T(o.CompText+d.NL))
 				}
@@ -460,6 +466,24 @@ func (r *runner) checkDialogue(log []devsim.Event, ws []int, stream string, evs 
 				where, k, clip(stream[s0:end]))
 		}
 		mp[k] = s0 + p
+		if evs[k].LongOut {
+			r.obs["responses_over_depth_with_prompt_like_line_tails"]++
+			if r.d.Seg.Mode == "fixed" && r.d.Seg.Size == 1 {
+				r.obs["responses_over_depth_delivered_bytewise"]++
+			}
+			r.tag("long-answer-with-prompt-like-tails")
+		}
+		if r.d.FinishBoth && r.d.FinishAt == k && len(res[k]) > 1 {
+			reg := norm(stream[s0:end])
+			own := res[k][len(res[k])-1]
+			for _, c := range res[k][:len(res[k])-1] {
+				if c.MatchString(reg) && own.MatchString(reg) {
+					r.obs["completion_and_expected_response_in_one_read"]++
+					r.tag("completion-and-expected-response-together")
+					break
+				}
+			}
+		}
 		if r.interim != nil && k+1 < sent && evs[k].Resp != "" {
 			// an interim-looking line ahead of the expected response: did a read end between the two?
 			if i := strings.Index(stream[s0:mp[k]], r.d.NL+r.d.InterimLine+r.d.NL); i >= 0 {
@@ -848,8 +872,14 @@ func escalationDevice(d *Desc, st *escState) *simDev {
 			st.enables++
 			switch round {
 			case "grant":
+				if e.Notice != "" {
+					return devsim.Reply{NewMode: "priv", NoPrompt: true, Out: []devsim.Token{devsim.E(e.Notice + d.NL + d.Host + "#")}}
+				}
 				return devsim.Reply{NewMode: "priv"}
 			case "refuse":
+				if e.Notice != "" {
+					return devsim.Reply{NoPrompt: true, Out: []devsim.Token{devsim.E("% Error in authentication." + d.NL + e.Notice + d.NL + d.Host + ">")}}
+				}
 				return devsim.Reply{Out: []devsim.Token{devsim.T("% Error in authentication." + d.NL)}}
 			default:
 				st.asks++
@@ -973,6 +1003,10 @@ func RunEscalation(d Desc) mon.Result {
 	if e.PwPat != "" && e.PwPat != pwPat {
 		r.tag(fmt.Sprintf("escalate-prompt=bare-text %q", e.PwPat))
 		r.obs["escalations_with_bare_text_escalate_prompt"]++
+	}
+	if e.Notice != "" {
+		r.tag("escalation-notice-matches-escalate-prompt")
+		r.obs["escalations_with_notice_matching_escalate_prompt"]++
 	}
 	rk := strings.Join(uniq(e.Rounds), ",")
 	secretsHidden := 0
